@@ -185,6 +185,98 @@ Definition inside (s : state) (p : pid) : Prop := exists k, inside_at s p k.
 Definition is_inside (s : state) (p : pid) : bool :=
   match st_pc (ps s p) with Inside _ _ => true | _ => false end.
 
+(* ---------------------------------------------------------------- vocabulary of the property statements *)
+
+(* the inode on which the control state has an open descriptor with the flock taken *)
+Definition holds_pc (c : pc) : option inode :=
+  match c with
+  | Flocked _ i => Some i
+  | Closing _ i true => Some i
+  | Replacing _ i => Some i
+  | Inside _ i => Some i
+  | RmFailed _ i => Some i
+  | _ => None
+  end.
+
+(* process p has an open descriptor on inode i with the flock taken (through its current LockFile or through
+   the file that unlock() left open after os.remove) *)
+Definition holds (s : state) (p : pid) (i : inode) : Prop :=
+  holds_pc (st_pc (ps s p)) = Some i \/ st_zomb (ps s p) = Some i.
+
+(* lock() has constructed a LockFile on path k / inode i (it returns at once, or after dropping the old LockFile) *)
+Definition inside_pc (c : pc) : option (slot * inode) :=
+  match c with
+  | Inside k i => Some (k, i)
+  | Replacing k i => Some (k, i)
+  | _ => None
+  end.
+
+(* the LockFile attempt a control state belongs to *)
+Definition att_of (c : pc) : option att :=
+  match c with
+  | Try a => Some a
+  | Opened a _ => Some a
+  | Flocked a _ => Some a
+  | Closing a _ _ => Some a
+  | _ => None
+  end.
+
+Definition slot_of (c : pc) : option slot :=
+  match c with
+  | Replacing k _ => Some k
+  | Inside k _ => Some k
+  | RmFailed k _ => Some k
+  | _ => None
+  end.
+
+(* every FileLock on the path keeps the file on unlock *)
+Definition keepfile (cfg : pid -> pconf) : Prop := forall p, removes (cfg p) = false.
+
+(* the calls of one lock() that meets no resistance: time, [randint], open, flock, stat, [close of the file
+   left over from the previous unlock-by-remove] *)
+Definition solo_ops (c : pconf) (zomb : bool) (t : Z) (r : nat) : list op :=
+  [OTime t] ++ (if is_sem c then [ORand r] else []) ++ [OOpen; OFlock; OStat] ++ (if zomb then [OClose] else []).
+
+Definition has_zomb (s : state) (p : pid) : bool :=
+  match st_zomb (ps s p) with Some _ => true | None => false end.
+
+(* the same process performs a list of calls *)
+Definition solo (p : pid) (l : list op) : list label := map (fun o => (p, o)) l.
+
+(* run that also reports the event of the last step *)
+Fixpoint run_ev (chk : bool) (cfg : pid -> pconf) (s : state) (l : list label) (e : event) : option (state * event) :=
+  match l with
+  | [] => Some (s, e)
+  | (p, o) :: r =>
+    match step chk cfg s p o with
+    | Some (s', _, e') => run_ev chk cfg s' r e'
+    | None => None
+    end
+  end.
+
+(* nobody else has a LockFile with the flock taken (others may be idle, sleeping, or anywhere before flock) *)
+Definition quiet_others (s : state) (p : pid) : Prop :=
+  forall q, q <> p -> holds_pc (st_pc (ps s q)) = None.
+
+(* LockError has reached FileLock.lock (state Failed) only through the close that ends a failed attempt, after
+   every one of the n lock files was tried in this _try_lock call; the process has done nothing since *)
+Definition after_failed_attempt chk cfg (l : list label) (p : pid) (stop : Z) : Prop :=
+  exists l1 l2 s1 a i held,
+    l = l1 ++ (p, OClose) :: l2 /\ run chk cfg init l1 = Some s1 /\
+    st_pc (ps s1 p) = Closing a i held /\ a_stop a = stop /\ nslots (cfg p) <= a_tries a /\
+    (forall o, ~ In (p, o) l2).
+
+(* process p is in the LockFile attempt a on inode i, between its open and the end of the identity check *)
+Definition in_attempt (c : pc) (a : att) (i : inode) : Prop := c = Opened a i \/ c = Flocked a i.
+
+(* during p's attempt a on inode i (p had opened i and has not opened anything since), another process q that
+   was inside through the same path on the same inode released the lock by removing the file *)
+Definition removed_under chk cfg (l : list label) (p : pid) (a : att) (i : inode) : Prop :=
+  exists l1 l2 s1 q,
+    l = l1 ++ (q, ORemove) :: l2 /\ run chk cfg init l1 = Some s1 /\ q <> p /\
+    st_pc (ps s1 q) = Inside (a_k a) i /\ in_attempt (st_pc (ps s1 p)) a i /\
+    (forall o, In (p, o) l2 -> o <> OOpen).
+
 (* ---------------------------------------------------------------- comparison with an observed trace *)
 
 Definition res_eqb (a b : res) : bool :=
